@@ -38,6 +38,7 @@ func main() {
 	rep.Rule = map[string]string{
 		"C06": "non-trivial = distinct (request, wallet state: coin statuses, spenders, locks, leases) pairs for which a created transaction's inputs were compared with the eligible set / a refusal was required",
 		"C20": "non-trivial = distinct (operation incl. backend answer class, wallet state) pairs after which balances, spendable set, recorded transactions (and the re-broadcast log after restarts) were compared",
+		"C16": "non-trivial = distinct usage patterns (window, lock state, used addresses, unspent outputs) recovered and compared, distinct invalid-child sets driven through BranchRecoveryState, and distinct (timestamp sequence, birthday) pairs with a payable block",
 		"C15": "non-trivial = distinct (backend chain of block ids, wallet transaction placement, last operation) quiescent states of a running wallet that were compared",
 	}[*prop]
 	err = common.ForEachLine(*in, *workers, func(idx int, line []byte) {
@@ -49,6 +50,12 @@ func main() {
 			replayChainSync(idx, line, *seed, root, rep)
 		case "spend":
 			replaySpend(idx, line, *prop, *seed, root, rep)
+		case "recovery-branch":
+			replayBranch(idx, line, rep)
+		case "recovery-birthday":
+			replayBirthday(idx, line, rep)
+		case "recovery-scan":
+			replayScan(idx, line, *seed, root, rep)
 		default:
 			rep.AddError("unknown spec %q", *spec)
 		}
